@@ -79,6 +79,10 @@ CHECKS = {
    technique="twin-instance differential exploration over game histories x every iteration boundary (soft limit vs hard budget), digest comparison of the state left behind; free-running concurrent replay plus race-detector pass (complementary)",
    text="Along engine-vs-engine games (tables carried over) every search runs on two identically driven instances (results, reported lines, table/history/generation digests equal) and is replayed on a third with a hard budget equal to the nodes used (same result, same state, budget respected); every iteration boundary of depth-6 searches over the root corpus soft vs hard plus a follow-up search; all games replayed concurrently must reproduce sequential transcripts; race detector pass over 12 concurrent instances.",
    note="Race-detector silence proves nothing (complementary pass); digests through verif hooks."),
+ "C13": dict(cat="model_checking", design="§5 C13, §4.3, App. A",
+   technique="stateless DFS over thread interleavings of the real uci package under a hand-written cooperative scheduler (operations redirected by an AST rewrite applied through go build -overlay), iterative deviation bounding with global-state-key pruning; mock search validated against real-search traces; solo fault plans; complementary race-detector pass",
+   text="The real driver (reader, handler+search, writer, per-go interrupt goroutine, timers, pool) runs under a controlled scheduler; for scripts of a bounded conforming grammar every interleaving within 2 deviations (preemptions, short writes, pool misses; key scripts unbounded) is executed and judged: no panic, no deadlock, all threads finished, exactly one bestmove per go after its info lines, one readyok per isready, no torn line; real-search scripts with every poll a scheduling point; a pondering real search with exhausted node budget must honour stop at every poll.",
+   note="The mock search abstracts the real search's interaction protocol (validated by trace acceptance on 500+ real searches); data races are outside a cooperative scheduler: free-running -race pass is complementary."),
 }
 
 PENDING = {
